@@ -222,3 +222,16 @@ Definition pstep (s : pst) (e : event) : option pst :=
 
 Definition path_accepts (tr : trace) : bool :=
   match run pstep pinit tr with Some _ => true | None => false end.
+
+(** The kinds of events that the gate view (model/M5gate.v), this view or the
+    monitor (corr/C07corr.v) look at; every other event leaves both acceptors
+    where they are (proofs/M5pathFacts.v: [unkept_ignored]), so the driver may
+    drop them before building the trace term. *)
+Definition kept (e : event) : bool :=
+  match e_k e with
+  | KIssue _ _ _ | KParams _ _ _ _ | KReturn _ _ | KRespond _ _ _ | KRouted _ _ | KSvcCopy _ _ | KSlot _ _ _ _
+  | KInstall _ _ | KRemoved _ | KPick _ _ _ | KGateSet _ _ _ | KGateRead _ _ _ | KGateWake _ _ | KGateResult _ _ _
+  | KLbNew _ _ | KLbClaim _ _ _ | KClaim _ _ | KClaimRefused _ _ | KProbeApply _ _ _ _ | KStateSet _ _ _
+  | KSvcName _ _ => true
+  | _ => false
+  end.
